@@ -272,3 +272,14 @@ def vint_extra_bytes(first_byte):
     while n < 8 and first_byte & (0x80 >> n):
         n += 1
     return n
+
+# ---------------------------------------------------------------- type names (C28): marshal class name -> (CQL name, number of subtypes)
+TYPE_NAMES = {
+    'BytesType': ('blob', 0), 'DecimalType': ('decimal', 0), 'UUIDType': ('uuid', 0), 'BooleanType': ('boolean', 0), 'ByteType': ('tinyint', 0),
+    'AsciiType': ('ascii', 0), 'FloatType': ('float', 0), 'DoubleType': ('double', 0), 'LongType': ('bigint', 0), 'Int32Type': ('int', 0),
+    'IntegerType': ('varint', 0), 'InetAddressType': ('inet', 0), 'CounterColumnType': ('counter', 0), 'DateType': ('timestamp', 0),
+    'TimestampType': ('timestamp', 0), 'TimeUUIDType': ('timeuuid', 0), 'SimpleDateType': ('date', 0), 'ShortType': ('smallint', 0),
+    'TimeType': ('time', 0), 'DurationType': ('duration', 0), 'UTF8Type': ('text', 0), 'VarcharType': ('varchar', 0),
+    'ListType': ('list', 1), 'SetType': ('set', 1), 'MapType': ('map', 2), 'TupleType': ('tuple', 'UNKNOWN'),
+    'ReversedType': ('org.apache.cassandra.db.marshal.ReversedType', 1), 'FrozenType': ('frozen', 1),
+}
